@@ -42,21 +42,21 @@ theorem specForEachPair_pure (g : Item → Item → Seq) (hg : ∀ x y, callf a 
       List.flatten_cons]
 
 /-- the keys of `fn:sort` are computed from each occurrence of an item, in order -/
-theorem specKeys_pure (k : Item → Seq) (g : Item → List Int) (hk : ∀ x, callf a [[x]] = pure (k x))
-    (hg : ∀ x, keyOf (k x) = .ok (g x)) :
-    ∀ xs : Seq, specKeys callf a xs = pure (xs.map fun x => (x, g x))
+theorem specKeys_pure (ci : Bool) (k : Item → Seq) (g : Item → List Int) (hk : ∀ x, callf a [[x]] = pure (k x))
+    (hg : ∀ x, keyOf ci (k x) = .ok (g x)) :
+    ∀ xs : Seq, specKeys callf ci a xs = pure (xs.map fun x => (x, g x))
   | [] => rfl
   | x :: xs => by
-    simp only [specKeys, hk, hg, SM.lift, pure_bind, specKeys_pure k g hk hg xs, List.map_cons]
+    simp only [specKeys, hk, hg, SM.lift, pure_bind, specKeys_pure ci k g hk hg xs, List.map_cons]
 
 theorem sortSpec_short : ∀ (l : List (Item × List Int)), l.length < 2 → sortSpec l = l
   | [], _ => rfl
   | [x], _ => rfl
   | _ :: _ :: _, h => by simp only [List.length_cons] at h; omega
 
-theorem specSort_pure (k : Item → Seq) (g : Item → List Int) (hk : ∀ x, callf a [[x]] = pure (k x))
-    (hg : ∀ x, keyOf (k x) = .ok (g x)) (xs : Seq) (hu : keysUniform (xs.map g) = true) :
-    specSort callf a xs = pure ((sortSpec (xs.map fun x => (x, g x))).map (·.1)) := by
+theorem specSort_pure (ci : Bool) (k : Item → Seq) (g : Item → List Int) (hk : ∀ x, callf a [[x]] = pure (k x))
+    (hg : ∀ x, keyOf ci (k x) = .ok (g x)) (xs : Seq) (hu : keysUniform (xs.map g) = true) :
+    specSort callf ci a xs = pure ((sortSpec (xs.map fun x => (x, g x))).map (·.1)) := by
   unfold specSort
   split
   · rename_i h
@@ -65,7 +65,7 @@ theorem specSort_pure (k : Item → Seq) (g : Item → List Int) (hk : ∀ x, ca
     simp [List.map_map, this]
   · have h2 : List.map (fun x : Item × List Int => x.2) (List.map (fun x => (x, g x)) xs) = xs.map g := by
       simp [List.map_map, Function.comp_def]
-    simp only [specKeys_pure callf a k g hk hg xs, pure_bind, h2, hu, if_true]
+    simp only [specKeys_pure callf a ci k g hk hg xs, pure_bind, h2, hu, if_true]
 
 end
 
@@ -74,7 +74,7 @@ end
 theorem convItem_idem : ∀ (t : ITy) (x y : Item), convItem t x = .ok y → convItem t y = .ok y
   | .item, x, y, h => by simp only [convItem, Except.ok.injEq] at h; subst h; rfl
   | .func, x, y, h => by cases x <;> simp [convItem] at h <;> (subst h; rfl)
-  | .atomic, x, y, h => by cases x <;> simp [convItem] at h <;> (subst h; rfl)
+  | .atomic, x, y, h => by cases x <;> simp [convItem] at h <;> (subst h; simp [convItem])
   | .integer, x, y, h => by cases x <;> simp [convItem] at h <;> (subst h; rfl)
   | .decimal, x, y, h => by cases x <;> simp [convItem] at h <;> (subst h; rfl)
   | .double, x, y, h => by cases x <;> simp [convItem] at h <;> (subst h; rfl)
